@@ -25,14 +25,21 @@ def check_pad(r, items, n, via_abs):
 
 
 @guarded
-def check_scale(r, items, k):
-    inp = {"items": items, "k": k}
+def check_scale(r, items, k, cached="none"):
+    inp = {"items": items, "k": k, "cached": cached}
     s = rseq(items)
     before = timeline_rel(s.rel._messages)
+    if cached == "abs_read":
+        s.get_sequence_duration()              # the absolute view is materialised and stays fresh
+    elif cached == "abs_only":
+        s.abs; s.invalidate_rel()
     s.scale(k, quantise_afterwards=False)
+    a_after = timeline_abs(s.copy().abs._messages)
+    if canon(a_after)[0] != sorted((t * k,) + tuple(str(x) for x in desc(m)) for t, m in before[0]) or a_after[1] != before[1] * k:
+        return r.fail("scale", inp, f"absolute view after scaling by {k}: duration {a_after[1]} (expected {before[1] * k})")
     after = timeline_rel(s.rel._messages)
     want = [(t * k,) + desc(m) for t, m in before[0]]
-    if ev_only(after) != want or after[1] != before[1] * k:
+    if sorted(map(str, ev_only(after))) != sorted(map(str, want)) or after[1] != before[1] * k:
         return r.fail("scale", inp, f"after {ev_only(after)[:4]} dur {after[1]}; expected {want[:4]} dur {before[1] * k}")
     if types_int(s.rel._messages):
         return r.fail("scale", inp, "non-integer times")
@@ -85,7 +92,8 @@ def run(r):
         for nn in {0, max(dur - 1, 0), dur, dur + 1, dur + rng.randrange(1, 50)}:
             r.case("pad", [items, nn]); check_pad(r, items, nn, rng.random() < 0.5)
         k = rng.randrange(1, 9)
-        r.case("scale", [items, k]); check_scale(r, items, k)
+        cached = rng.choice(("none", "abs_read", "abs_only"))
+        r.case("scale", [items, k, cached]); check_scale(r, items, k, cached)
         c = rng.choice((0, 1, 5, 15))
         r.case("set_channel", [items, c]); check_channel(r, items, c)
         m = rng.choice((1, 2, 3, 6, 12, 24))
@@ -95,6 +103,6 @@ def run(r):
 
 def replay(r, chk, inp):
     if chk == "pad": check_pad(r, inp["items"], inp["n"], inp["via_abs"])
-    elif chk == "scale": check_scale(r, inp["items"], inp["k"])
+    elif chk == "scale": check_scale(r, inp["items"], inp["k"], inp.get("cached", "none"))
     elif chk == "set_channel": check_channel(r, inp["items"], inp["c"])
     else: check_cutoff(r, inp["notes"], inp["extras"], inp["m"], inp["r"])
